@@ -1,9 +1,196 @@
 import Tup.DrvUtil
-/-! Driver for group Cmd (stub; the group's owner fills it in). -/
+import Tup.Model.Command
+import Tup.Spec.GfxParse
+import Tup.Spec.TmuxUnwrap
+import Tup.Gen.Keys
+/-!
+  Driver for the graphics-command group (C05, C06, C11).
+
+  A command is described by tokens: the type (`T` transmit, `M` more-data, `P` put, `D` delete)
+  followed by `field:value` tokens with the Python field names (`image_id:5 medium:DIRECT more:1
+  data:68656c6c6f placement:1 p.rows:3 …`); integers in decimal, booleans `0`/`1`, enum members by
+  their Python names, bytes in hex (`-` = empty).  A field that is not named is `None`.
+-/
 namespace Tup.Drv.Cmd
-open Tup
+open Tup Tup.Command
+
+def parseBool (s : String) : Option Bool := if s = "1" then some true else if s = "0" then some false else none
+
+def parseQuiet : String → Option Quietness
+  | "VERBOSE" => some .verbose | "QUIET_UNLESS_ERROR" => some .quietUnlessError | "QUIET_ALWAYS" => some .quietAlways
+  | _ => none
+def parseFormat : String → Option Format
+  | "RGB" => some .rgb | "RGBA" => some .rgba | "PNG" => some .png | _ => none
+def parseMedium : String → Option Medium
+  | "DIRECT" => some .direct | "FILE" => some .file | "TEMP_FILE" => some .tempFile
+  | "SHARED_MEMORY" => some .sharedMemory | _ => none
+def parseCompression : String → Option Compression
+  | "ZLIB" => some .zlib | _ => none
+def parseWhat : String → Option WhatToDelete
+  | "VISIBLE_PLACEMENTS" => some .visiblePlacements
+  | "IMAGE_OR_PLACEMENT_BY_ID" => some .imageOrPlacementById
+  | "IMAGE_OR_PLACEMENT_BY_NUMBER" => some .imageOrPlacementByNumber
+  | "PLACEMENTS_UNDER_CURSOR" => some .placementsUnderCursor
+  | "ANIMATION_FRAMES" => some .animationFrames
+  | "PLACEMENTS_AT_POSITION" => some .placementsAtPosition
+  | "PLACEMENTS_AT_POSITION_AND_ZINDEX" => some .placementsAtPositionAndZindex
+  | "PLACEMENTS_AT_COLUMN" => some .placementsAtColumn
+  | "PLACEMENTS_AT_ROW" => some .placementsAtRow
+  | "PLACEMENTS_AT_ZINDEX" => some .placementsAtZindex
+  | _ => none
+
+def setPlacement (p : Placement) (name value : String) : Option Placement :=
+  match name with
+  | "placement_id" => value.toNat?.map fun n => { p with placementId := some n }
+  | "virtual" => (parseBool value).map fun b => { p with virtual := some b }
+  | "rows" => value.toNat?.map fun n => { p with rows := some n }
+  | "cols" => value.toNat?.map fun n => { p with cols := some n }
+  | "do_not_move_cursor" => (parseBool value).map fun b => { p with doNotMoveCursor := some b }
+  | "src_x" => value.toNat?.map fun n => { p with srcX := some n }
+  | "src_y" => value.toNat?.map fun n => { p with srcY := some n }
+  | "src_w" => value.toNat?.map fun n => { p with srcW := some n }
+  | "src_h" => value.toNat?.map fun n => { p with srcH := some n }
+  | _ => none
+
+def setTransmit (t : Transmit) (name value : String) : Option Transmit :=
+  match name with
+  | "image_id" => value.toNat?.map fun n => { t with imageId := some n }
+  | "image_number" => value.toNat?.map fun n => { t with imageNumber := some n }
+  | "medium" => (parseMedium value).map fun m => { t with medium := some m }
+  | "data" => (ofHex value).map fun d => { t with data := d }
+  | "size" => value.toNat?.map fun n => { t with size := some n }
+  | "offset" => value.toNat?.map fun n => { t with offset := some n }
+  | "quiet" => (parseQuiet value).map fun q => { t with quiet := some q }
+  | "more" => (parseBool value).map fun b => { t with more := some b }
+  | "format" => (parseFormat value).map fun f => { t with format := some f }
+  | "compression" => (parseCompression value).map fun c => { t with compression := some c }
+  | "pix_width" => value.toNat?.map fun n => { t with pixWidth := some n }
+  | "pix_height" => value.toNat?.map fun n => { t with pixHeight := some n }
+  | "query" => (parseBool value).map fun b => { t with query := some b }
+  | "omit_action" => (parseBool value).map fun b => { t with omitAction := b }
+  | "placement" => if value = "1" then some { t with placement := some (t.placement.getD {}) } else none
+  | _ =>
+    if name.startsWith "p." then
+      (setPlacement (t.placement.getD {}) (name.drop 2).toString value).map fun p => { t with placement := some p }
+    else none
+
+def setMore (m : MoreData) (name value : String) : Option MoreData :=
+  match name with
+  | "image_id" => value.toNat?.map fun n => { m with imageId := some n }
+  | "image_number" => value.toNat?.map fun n => { m with imageNumber := some n }
+  | "data" => (ofHex value).map fun d => { m with data := d }
+  | "more" => (parseBool value).map fun b => { m with more := some b }
+  | _ => none
+
+def setPut (p : Put) (name value : String) : Option Put :=
+  match name with
+  | "image_id" => value.toNat?.map fun n => { p with imageId := some n }
+  | "image_number" => value.toNat?.map fun n => { p with imageNumber := some n }
+  | "quiet" => (parseQuiet value).map fun q => { p with quiet := some q }
+  | _ => (setPlacement p.placement name value).map fun pl => { p with placement := pl }
+
+def setDelete (d : Delete) (name value : String) : Option Delete :=
+  match name with
+  | "image_id" => value.toNat?.map fun n => { d with imageId := some n }
+  | "image_number" => value.toNat?.map fun n => { d with imageNumber := some n }
+  | "placement_id" => value.toNat?.map fun n => { d with placementId := some n }
+  | "quiet" => (parseQuiet value).map fun q => { d with quiet := some q }
+  | "what" => (parseWhat value).map fun w => { d with what := some w }
+  | "delete_data" => (parseBool value).map fun b => { d with deleteData := some b }
+  | _ => none
+
+def splitTok (tok : String) : Option (String × String) :=
+  match tok.splitOn ":" with
+  | [a, b] => some (a, b)
+  | _ => none
+
+def foldFields {α} (set : α → String → String → Option α) (init : α) (toks : List String) : Option α :=
+  toks.foldlM (fun acc tok => do let (n, v) ← splitTok tok; set acc n v) init
+
+def parseCmd : List String → Option GCmd
+  | "T" :: toks => (foldFields setTransmit {} toks).map .transmit
+  | "M" :: toks => (foldFields setMore {} toks).map .moreData
+  | "P" :: toks => (foldFields setPut {} toks).map .put
+  | "D" :: toks => (foldFields setDelete {} toks).map .delete
+  | _ => none
+
+def hexList (l : List Bytes) : String := if l.isEmpty then "none" else " ".intercalate (l.map hexOut)
+
+def itemsStr (items : List (UInt8 × Bytes)) : String :=
+  if items.isEmpty then "-" else ",".intercalate (items.map fun kv => s!"{kv.1.toNat}:{hexOut kv.2}")
+
+/-- `_` = variable unset, otherwise hex (`-` = set to the empty string) -/
+def parseOptBytes (s : String) : Option (Option Bytes) :=
+  if s = "_" then some none else (ofHex s).map some
+
+def parseMax (s : String) : Option Nat := if s = "none" then some Gen.Keys.pipeBuf else s.toNat?
 
 def handle : List String → String
+  | "tobytes" :: n :: cmd => match n.toNat?, parseCmd cmd with
+      | some n, some c => hexOut (toBytes (template n) c)
+      | _, _ => "bad"
+  | "header" :: cmd => match parseCmd cmd with
+      | some c => hexOut (headerBytes c) | none => "bad"
+  | "content" :: cmd => match parseCmd cmd with
+      | some c => hexOut (contentBytes c) | none => "bad"
+  | ["template", n] => match n.toNat? with
+      | some n => hexOut (template n).bytes | none => "bad"
+  | "send" :: n :: mx :: cmd => match n.toNat?, parseMax mx, parseCmd cmd with
+      | some n, some mx, some c => (match send (template n) mx c with
+          | .error _ => "err"
+          | .ok l => hexList l)
+      | _, _, _ => "bad"
+  | "split" :: mp :: cmd => match mp.toNat?, parseCmd cmd with
+      | some mp, some (.transmit t) => hexList ((t.split mp).map contentBytes)
+      | _, _ => "bad"
+  | ["detect", tmux, term, cur, cfg] => match parseOptBytes tmux, parseOptBytes term, cur.toNat? with
+      | some tm, some te, some cur =>
+          let e : Env := ⟨tm, te⟩
+          let cfgv : Option (Option Nat) := if cfg = "auto" then some none else cfg.toNat?.map some
+          (match cfgv with
+           | some cv => s!"{boolStr (detectTmux e)} {detectSiteTerminal cur e} {detectSiteConfig cv e}"
+           | none => "bad")
+      | _, _, _ => "bad"
+  -- independent specification
+  | ["spec_parse", h] => match ofHex h with
+      | some bs => (match Spec.GfxParse.parse bs with
+          | none => "none"
+          | some (items, d) => s!"{itemsStr items} {hexOut d}")
+      | none => "bad"
+  | ["spec_unwrap", n, h] => match n.toNat?, ofHex h with
+      | some n, some bs => (match Spec.TmuxUnwrap.unwrapN n bs with
+          | none => "none" | some r => hexOut r)
+      | _, _ => "bad"
+  | ["spec_layers", n, h] => match n.toNat?, ofHex h with
+      -- every one of the n wrappers is well formed (no lone ESC) and unwraps
+      | some n, some bs =>
+          let rec go : Nat → Bytes → String
+            | 0, _ => "ok"
+            | k + 1, b =>
+              if !Spec.TmuxUnwrap.wellWrapped b then s!"not-well-wrapped-at-{k + 1}"
+              else match Spec.TmuxUnwrap.unwrap1 b with
+                | none => s!"unwrap-failed-at-{k + 1}"
+                | some r => go k r
+          go n bs
+      | _, _ => "bad"
+  | ["spec_splitstream", h] => match ofHex h with
+      | some bs => (match Spec.TmuxUnwrap.splitStream bs with
+          | none => "none" | some l => if l.isEmpty then "empty" else hexList l)
+      | none => "bad"
+  | "spec_fields" :: cmd => match parseCmd cmd with
+      | some c => itemsStr (Spec.GfxParse.fields c) | none => "bad"
+  | "spec_checkcmd" :: n :: h :: cmd => match n.toNat?, ofHex h, parseCmd cmd with
+      | some n, some bs, some c => (match Spec.TmuxUnwrap.unwrapN n bs with
+          | none => "unwrap-failed"
+          | some inner => (Spec.GfxParse.checkCommand c inner).getD "ok")
+      | _, _, _ => "bad"
+  | "spec_checksend" :: n :: mx :: raised :: h :: cmd => match n.toNat?, parseMax mx, ofHex h, parseCmd cmd with
+      | some n, some mx, some bs, some (.transmit t) =>
+          (Spec.GfxParse.checkSend n mx t (raised = "1") bs).getD "ok"
+      | _, _, _, _ => "bad"
+  | ["spec_detect", tmux, term] => match parseOptBytes tmux, parseOptBytes term with
+      | some tm, some te => boolStr (Spec.TmuxUnwrap.detectSpec tm te)
+      | _, _ => "bad"
   | _ => "bad"
 
 end Tup.Drv.Cmd
